@@ -29,6 +29,8 @@ def list_units(specs):
         units.append(('lemma', l.name, None, None))
     for target, cs in specs.contracts.items():
         for c in cs:
+            if c.options.get('assumed'):
+                continue
             combos = [None]
             if 'split' in c.options:
                 ptypes = dict(c.params)
